@@ -196,6 +196,34 @@ func (e *Engine) verifyFunc(name, prop string, safety bool) *FuncResult {
 			if cl.Call != "$return" || !r.active(cl.Tags) {
 				continue
 			}
+			if cl.CallK != -1 {
+				// one return site, in source order
+				sites := append([]retRec(nil), fr.rets...)
+				sort.SliceStable(sites, func(a, b int) bool { return sites[a].at < sites[b].at })
+				k := cl.CallK
+				if k == -2 {
+					k = len(sites) - 1
+				}
+				if k < 0 || k >= len(sites) {
+					res.Err = fmt.Errorf("at return#%d %s: the function has %d return sites", cl.CallK, cl.Label, len(sites))
+					return res
+				}
+				rr := sites[k]
+				nm := map[string]Value{}
+				for i, n := range rn {
+					nm[n] = rr.vals[i]
+				}
+				if len(rr.vals) == 1 {
+					nm["result"] = rr.vals[0]
+				}
+				g, err := fr.evalBool(cl.E, rr.st, nm)
+				if err != nil {
+					res.Err = fmt.Errorf("at return %s: %v", cl.Label, err)
+					return res
+				}
+				r.addOblig(&Oblig{Name: fname + "#assert#return." + cl.Label, Kind: "assert", Func: fname, Label: cl.Label, Tags: cl.Tags, Text: cl.Text + "   [at the return at " + rr.pos + "]", Guard: rr.st.guard, Goal: g})
+				continue
+			}
 			g, err := fr.evalBool(cl.E, out, names)
 			if err != nil {
 				res.Err = fmt.Errorf("at return %s: %v", cl.Label, err)
